@@ -189,8 +189,21 @@ func main() {
 				j.res = SolveResult{Status: "error", Raw: err.Error()}
 				return
 			}
-			j.res = Solve(file, *timeout)
-			if j.res.Status == "sat" && j.tag == "" {
+			to := *timeout
+			if j.tag != "" && to > 3 {
+				to = 3
+			}
+			j.res = Solve(file, to)
+			if j.tag == "" && j.res.Status != "sat" && j.res.Status != "unsat" && j.vc.useRoot && j.o.Kind != "frame" {
+				if f2, err := j.vc.WriteQuery(j.o, *outDir, j.seq, j.neg, true); err == nil {
+					r2 := Solve(f2, 3)
+					if r2.Status == "sat" {
+						j.res.Model = r2.Model
+						j.res.Candidate = true
+					}
+				}
+			}
+			if (j.res.Status == "sat" || j.res.Candidate) && j.tag == "" {
 				j.res.Values = parseValues(j.res.Model, j.vc.replay)
 				if k := strings.Index(j.res.Model, "VALUES-BEGIN"); k >= 0 {
 					j.res.Model = j.res.Model[:k]
